@@ -405,6 +405,10 @@ def run(model, tier="quick"):
     effects_check(res, model, F + "buy_squeeth", REF_BUY_SQTH, "long side: buy oSQTH on the pool (ETH budget / oSQTH price)", WALLET + ["buy", "sell"], opaque=OPQ)
     effects_check(res, model, F + "sell_squeeth", REF_SELL_SQTH, "long side: sell oSQTH on the pool", WALLET + ["buy", "sell"], opaque=OPQ)
     res.floor("post_dominance_ops", post_dominance(model, res), 4)
+    from ..rules.fresh import fresh_rule
+    if "R-FRESH" not in res.rules:
+        res.rules.append("R-FRESH")
+    fresh_rule(model, res, scope=('demeter/squeeth/', 'demeter/uniswap/'))
     res.assumptions = ["norm_factor / price columns of the data are sane (data)",
                        "pandas label slicing data[a:b] is inclusive on both ends (7 one-minute rows for a 6 minute span)"]
     res.not_decided = ["Decimal/float mixing inside calc_twap_price", "negative collateral after the reduce-debt bounty "
